@@ -420,8 +420,10 @@ impl ToMysqlValue for NaiveDate {
     fn to_mysql_bin<W: Write>(&self, w: &mut W, c: &Column) -> io::Result<()> {
         match c.coltype {
             ColumnType::MYSQL_TYPE_DATE => {
+                // the binary protocol carries the year in two bytes
+                let year = u16::try_from(self.year()).map_err(|_| bad(self, c))?;
                 w.write_u8(4u8)?;
-                w.write_u16::<LittleEndian>(self.year() as u16)?;
+                w.write_u16::<LittleEndian>(year)?;
                 w.write_u8(self.month() as u8)?;
                 w.write_u8(self.day() as u8)
             }
@@ -469,13 +471,15 @@ impl ToMysqlValue for NaiveDateTime {
         match c.coltype {
             ColumnType::MYSQL_TYPE_DATETIME | ColumnType::MYSQL_TYPE_TIMESTAMP => {
                 let us = self.nanosecond() / 1_000;
+                // the binary protocol carries the year in two bytes
+                let year = u16::try_from(self.year()).map_err(|_| bad(self, c))?;
 
                 if us != 0 {
                     w.write_u8(11u8)?;
                 } else {
                     w.write_u8(7u8)?;
                 }
-                w.write_u16::<LittleEndian>(self.year() as u16)?;
+                w.write_u16::<LittleEndian>(year)?;
                 w.write_u8(self.month() as u8)?;
                 w.write_u8(self.day() as u8)?;
                 w.write_u8(self.hour() as u8)?;
